@@ -61,6 +61,8 @@ Record ostep := mkOstep {
   os_vs : vs; os_cf : faults; os_df : faults;
   os_clog : list action; os_cres : result; os_cstore : smap cert;      (* store after the step *)
   os_dlog : list action; os_dres : result; os_dstore : smap dnsep;
+  os_cpre : option (smap cert);          (* the cluster before the step, when somebody else changed it since the last step *)
+  os_dpre : option (smap dnsep);
   os_ccache : option (smap cert);        (* the lister caches before the step, when they differ from the cluster *)
   os_dcache : option (smap dnsep);
   os_cache_mutated : bool;               (* the synchronization changed a lister-cache object in place *)
@@ -172,14 +174,16 @@ Definition s_gc (s : ostep) (prec : smap cert) : Z :=
 (* a second synchronization of the same VirtualServer after a successful one writes nothing.
    1 = the Certificate controller wrote, 2 = the DNSEndpoint controller wrote, 4 = it wrote and the
    VirtualServer has externalDNS.labels: {} (empty, non-nil) *)
+Definition is_none {A} (o : option A) : bool := match o with None => true | Some _ => false end.
+
 Definition s_idem (prev : option (ostep * smap cert)) (s : ostep) : Z :=
   match prev with
   | None => 0
   | Some (p, prec) =>     (* prec: the store the previous synchronization started from *)
       if vs_eqb (os_vs p) (os_vs s) then
-        (if result_eqb (os_cres p) ROk && consistent_b (v_uid (os_vs s)) prec then
+        (if result_eqb (os_cres p) ROk && consistent_b (v_uid (os_vs s)) prec && is_none (os_cpre s) then
            match os_clog s with [] => 0 | _ => 1 end else 0) +
-        (if result_eqb (os_dres p) ROk then
+        (if result_eqb (os_dres p) ROk && is_none (os_dpre s) then
            match os_dlog s with
            | [] => 0
            | _ => match x_labels (v_xdns (os_vs s)) with Some [] => 4 | _ => 2 end
@@ -213,6 +217,8 @@ Fixpoint walk (cs : cmpset) (i : Z) (prev : option (ostep * smap cert)) (prec : 
   match steps with
   | [] => acc
   | s :: r =>
+      let prec := match os_cpre s with Some p => p | None => prec end in
+      let pred := match os_dpre s with Some p => p | None => pred end in
       let uid := v_uid (os_vs s) in
       let xok := x_step cs prec pred s in
       let fok := s_foreign c_owner cert_eqb uid prec (os_cstore s) (os_clog s) &&
